@@ -25,7 +25,7 @@ package segmenter
 //@ trusted std:unicode.Is
 //@   params rangeTab, r
 //@   modifies nothing
-//@ trusted unicodedata.LookupType
+//@ trusted std:unicodedata.LookupType
 //@   modifies nothing
 //
 // GB12/GB13: "sot (RI RI)* RI x RI" / "[^RI] (RI RI)* RI x RI": break is prohibited between the 1st and 2nd of each pair.
@@ -40,10 +40,7 @@ package segmenter
 // 1 if the text read so far ends with ExtPict Extend*, 2 if it ends with ExtPict Extend* ZWJ, else 0; the rule triggers
 // when the state before c is 2 and c is Extended_Pictographic (and c then starts a new ExtPict Extend* sequence).
 // An Extended_Pictographic character is neither Extend nor ZWJ (disjoint tables; checked on the table literals).
-//@ data extPictNotExtendNorZWJ C06 : forall(a, 0, len(ucd.Extended_Pictographic.R16), forall(b, 0, len(ucd.GraphemeBreakExtend.R16), ucd.Extended_Pictographic.R16[a].Hi < ucd.GraphemeBreakExtend.R16[b].Lo || ucd.GraphemeBreakExtend.R16[b].Hi < ucd.Extended_Pictographic.R16[a].Lo)) &&
-//@   | forall(a, 0, len(ucd.Extended_Pictographic.R32), forall(b, 0, len(ucd.GraphemeBreakExtend.R32), ucd.Extended_Pictographic.R32[a].Hi < ucd.GraphemeBreakExtend.R32[b].Lo || ucd.GraphemeBreakExtend.R32[b].Hi < ucd.Extended_Pictographic.R32[a].Lo)) &&
-//@   | forall(a, 0, len(ucd.Extended_Pictographic.R16), forall(b, 0, len(ucd.GraphemeBreakZWJ.R16), ucd.Extended_Pictographic.R16[a].Hi < ucd.GraphemeBreakZWJ.R16[b].Lo || ucd.GraphemeBreakZWJ.R16[b].Hi < ucd.Extended_Pictographic.R16[a].Lo)) &&
-//@   | len(ucd.GraphemeBreakZWJ.R32) == 0
+//@ data extPictNotExtendNorZWJ C06 : disjointTables(ucd.Extended_Pictographic, ucd.GraphemeBreakExtend) && disjointTables(ucd.Extended_Pictographic, ucd.GraphemeBreakZWJ)
 //@ func cursor.updatePictoSequence C06
 //@   mode int
 //@   requires cr.pictoSequence <= 2
@@ -53,3 +50,66 @@ package segmenter
 //@     | ite(old(cr.pictoSequence) == 1 && cr.grapheme == ucd.GraphemeBreakExtend, pictoSequenceState(1),
 //@     | ite(old(cr.pictoSequence) == 1 && cr.grapheme == ucd.GraphemeBreakZWJ, pictoSequenceState(2), pictoSequenceState(0))))
 //@   modifies cr.pictoSequence
+//
+// UAX #14 context carried between positions (LB9: "treat X (CM|ZWJ)* as if it were X", except after BK CR LF NL SP ZW;
+// LB10: "treat any remaining CM or ZWJ as AL"). After position i: prevLine is the class that position i presents to
+// position i+1, prevPrevLine the one before it, beforeSpaces the last class that is not SP (for the "X SP* x" rules),
+// isPrevLinebreakRIOdd the parity of the run of RI ending here (LB30a; CM/ZWJ transparent).
+//@ spec isCMorZWJ(c lineBreakClass) bool = c == ucd.BreakCM || c == ucd.BreakZWJ
+//@ spec isHardOrSpace(c lineBreakClass) bool = c == ucd.BreakBK || c == ucd.BreakCR || c == ucd.BreakLF || c == ucd.BreakNL || c == ucd.BreakSP || c == ucd.BreakZW
+//@ func cursor.endIteration C06
+//@   mode int
+//@   ensures [lb9-transparent] implies(isCMorZWJ(cr.line) && !isStart && !isHardOrSpace(old(cr.prevLine)), cr.prevLine == old(cr.prevLine) && cr.prevPrevLine == old(cr.prevPrevLine))
+//@   ensures [lb10-as-AL] implies(isCMorZWJ(cr.line) && (isStart || isHardOrSpace(old(cr.prevLine))), cr.prevLine == ucd.BreakAL && cr.prevPrevLine == old(cr.prevPrevLine))
+//@   ensures [regular] implies(!isCMorZWJ(cr.line), cr.prevLine == cr.line && cr.prevPrevLine == old(cr.prevLine))
+//@   ensures [before-spaces] cr.beforeSpaces == ite(cr.prevLine != ucd.BreakSP, cr.prevLine, old(cr.beforeSpaces))
+//@   ensures [ri-parity] cr.isPrevLinebreakRIOdd == ite(cr.line == ucd.BreakRI, !old(cr.isPrevLinebreakRIOdd), ite(isCMorZWJ(cr.line), old(cr.isPrevLinebreakRIOdd), false))
+//@   ensures [line-kept] cr.line == old(cr.line) && cr.nextLine == old(cr.nextLine)
+//@   modifies cr.prevLine; cr.prevPrevLine; cr.beforeSpaces; cr.isPrevLinebreakRIOdd
+//
+// LB25 (with the "Example 7" tailoring the package documents): numeric context NU (NU|SY|IS)* (CL|CP)? (PO|PR)?,
+// CM/ZWJ transparent (LB9). State after the current character: 1 inside NU (NU|SY|IS)*, 2 after the closing CL|CP, else 0;
+// the rule prohibits the break before the current character when it continues the numeric expression.
+//@ func cursor.updateNumSequence C06
+//@   mode int
+//@   requires cr.numSequence <= 2
+//@   ensures [transparent] implies(isCMorZWJ(cr.line), !result && cr.numSequence == old(cr.numSequence))
+//@   ensures [trigger] implies(!isCMorZWJ(cr.line), result == ((old(cr.numSequence) == 1 && (cr.line == ucd.BreakNU || cr.line == ucd.BreakSY || cr.line == ucd.BreakIS || cr.line == ucd.BreakCL || cr.line == ucd.BreakCP || cr.line == ucd.BreakPO || cr.line == ucd.BreakPR)) ||
+//@     | (old(cr.numSequence) == 2 && (cr.line == ucd.BreakPO || cr.line == ucd.BreakPR))))
+//@   ensures [next-state] implies(!isCMorZWJ(cr.line), cr.numSequence == ite(cr.line == ucd.BreakNU, numSequenceState(1),
+//@     | ite(old(cr.numSequence) == 1 && (cr.line == ucd.BreakSY || cr.line == ucd.BreakIS), numSequenceState(1),
+//@     | ite(old(cr.numSequence) == 1 && (cr.line == ucd.BreakCL || cr.line == ucd.BreakCP), numSequenceState(2), numSequenceState(0)))))
+//@   modifies cr.numSequence
+//
+// UAX #29 grapheme cluster boundary rules, as the ordered list of the standard (first matching rule decides).
+//@ spec gbCtl(c graphemeBreakClass) bool = c == ucd.GraphemeBreakControl || c == ucd.GraphemeBreakCR || c == ucd.GraphemeBreakLF
+//@ spec gbRule(crlf bool, b0 graphemeBreakClass, b1 graphemeBreakClass, gb11 bool, gb1213 bool) bool = ite(crlf, false,
+//@   | ite(gbCtl(b0) || gbCtl(b1), true,
+//@   | ite(b0 == ucd.GraphemeBreakL && (b1 == ucd.GraphemeBreakL || b1 == ucd.GraphemeBreakV || b1 == ucd.GraphemeBreakLV || b1 == ucd.GraphemeBreakLVT), false,
+//@   | ite((b0 == ucd.GraphemeBreakLV || b0 == ucd.GraphemeBreakV) && (b1 == ucd.GraphemeBreakV || b1 == ucd.GraphemeBreakT), false,
+//@   | ite((b0 == ucd.GraphemeBreakLVT || b0 == ucd.GraphemeBreakT) && b1 == ucd.GraphemeBreakT, false,
+//@   | ite(b1 == ucd.GraphemeBreakExtend || b1 == ucd.GraphemeBreakZWJ, false,
+//@   | ite(b1 == ucd.GraphemeBreakSpacingMark, false,
+//@   | ite(b0 == ucd.GraphemeBreakPrepend, false,
+//@   | ite(gb11, false, ite(gb1213, false, true))))))))))
+//@ func cursor.applyGraphemeBoundaryRules C06
+//@   mode int
+//@   requires cr.pictoSequence <= 2
+//@   requires [data-extPictNotExtendNorZWJ] implies(cr.isExtentedPic, cr.grapheme != ucd.GraphemeBreakExtend && cr.grapheme != ucd.GraphemeBreakZWJ)
+//@   ensures [first-match] result == gbRule(cr.r == 10 && cr.prev == 13, cr.prevGrapheme, cr.grapheme, old(cr.pictoSequence) == 2 && cr.isExtentedPic, cr.grapheme == ucd.GraphemeBreakRegional_Indicator && old(cr.isPrevGraphemeRIOdd))
+//@   modifies cr.pictoSequence; cr.isPrevGraphemeRIOdd
+//
+// UAX #14, highest-priority rules, each stated as in the standard: a rule decides when its context matches and no
+// earlier rule does (p = class presented by the previous position, c = resolved class of the current rune).
+//@ func cursor.applyLineBoundaryRules C06
+//@   mode int
+//@   requires cr.numSequence <= 2
+//@   requires cr.line != ucd.BreakAI && cr.line != ucd.BreakSG && cr.line != ucd.BreakXX && cr.line != ucd.BreakSA && cr.line != ucd.BreakCJ
+//@   ensures [lb4-lb5-mandatory] implies(cr.prevLine == ucd.BreakBK || (cr.prevLine == ucd.BreakCR && cr.r != 10) || cr.prevLine == ucd.BreakLF || cr.prevLine == ucd.BreakNL, result == breakMandatory)
+//@   ensures [lb6-no-break-before-hard] implies(!(cr.prevLine == ucd.BreakBK || (cr.prevLine == ucd.BreakCR && cr.r != 10) || cr.prevLine == ucd.BreakLF || cr.prevLine == ucd.BreakNL) &&
+//@     | (cr.line == ucd.BreakBK || cr.line == ucd.BreakCR || cr.line == ucd.BreakLF || cr.line == ucd.BreakNL), result == breakProhibited)
+//@   ensures [lb7-no-break-before-space] implies(!(cr.prevLine == ucd.BreakBK || (cr.prevLine == ucd.BreakCR && cr.r != 10) || cr.prevLine == ucd.BreakLF || cr.prevLine == ucd.BreakNL) &&
+//@     | (cr.line == ucd.BreakSP || cr.line == ucd.BreakZW), result == breakProhibited)
+//@   ensures [mandatory-only-after-hard] implies(result == breakMandatory, cr.prevLine == ucd.BreakBK || cr.prevLine == ucd.BreakCR || cr.prevLine == ucd.BreakLF || cr.prevLine == ucd.BreakNL)
+//@   ensures [lb31-default] implies(result == breakEmpty, !(cr.line == ucd.BreakSP || cr.line == ucd.BreakZW) && cr.prevLine != ucd.BreakGL && cr.prevLine != ucd.BreakWJ && cr.line != ucd.BreakWJ)
+//@   modifies cr.numSequence; cr.line
